@@ -568,7 +568,38 @@ func (i *interpreter) registerIntrinsics() {
 	}
 	in["encoding/json.Marshal"] = func(fr *frame, args []value) value {
 		fr.i.noteStub("opaque:encoding/json.Marshal")
-		return tuple{[]value{opaque{}}, iface{}}
+		var payload value
+		if a, ok := args[0].(iface); ok {
+			payload = a.v
+		}
+		return tuple{[]value{opaque{payload: payload}}, iface{}}
+	}
+	// json.Unmarshal of text produced by the json.Marshal model into a map restores the map;
+	// any other use must be stubbed by the harness.
+	in["encoding/json.Unmarshal"] = func(fr *frame, args []value) value {
+		data, _ := args[0].([]value)
+		target, _ := args[1].(iface)
+		if len(data) == 1 {
+			if op, ok := data[0].(opaque); ok {
+				if m, ok := op.payload.(*omap); ok && m != nil {
+					if p, ok := target.v.(*value); ok && p != nil {
+						if pt, ok := target.t.Underlying().(*types.Pointer); ok {
+							if _, ok := pt.Elem().Underlying().(*types.Map); ok {
+								cp := makeMap(m.keyType)
+								for k := range m.keys {
+									cp.insert(fr, m.keys[k], m.vals[k])
+								}
+								fr.i.setCell(p, cp)
+								fr.i.noteStub("model:encoding/json.Unmarshal(of json.Marshal output)")
+								return iface{}
+							}
+						}
+					}
+				}
+			}
+		}
+		abandon("json.Unmarshal of text that is not the json.Marshal model (stub it in the harness)")
+		return nil
 	}
 	in["encoding/json.MarshalIndent"] = in["encoding/json.Marshal"]
 	in["(*encoding/base64.Encoding).EncodeToString"] = func(fr *frame, args []value) value {
